@@ -19,6 +19,11 @@ int muggle_pointer_slot_init(muggle_pointer_slot_t *pointer_slot, unsigned int c
 {
 	memset(pointer_slot, 0, sizeof(muggle_pointer_slot_t));
 	capacity = capacity > 0 ? capacity : 1;
+	if (capacity > ((unsigned int)1 << 31))
+	{
+		// the next power of two does not fit in an unsigned int
+		return MUGGLE_ERR_INVALID_PARAM;
+	}
 	capacity = (unsigned int)muggle_next_pow_of_2((uint64_t)capacity);
 	pointer_slot->capacity = capacity;
 
